@@ -1473,13 +1473,14 @@ def docElems (v2 : Bool) (d : Document) : List (String × List Row × Obj XV) :=
 screen, audioObjectInteraction, alternativeValueSet, block formats of all five types, Matrix coefficients — every
 grid number `Leaf.num k` under a declarative `FloatType` row of the element's regenerated parser table and every
 linear `gain` written by a hand-written gain handler satisfies `|k| < 2^36·10^5` (or is the handler default, which is
-not written), and every jumpPosition interpolationLength additionally `0 ≤ k`.  Numbers held in the other hand-written
-structures (listed in `Proofs/C08FloatDoc.lean`) are not constrained and not covered. -/
+not written), every jumpPosition interpolationLength additionally `0 ≤ k`, and every number held by a value written
+by the other hand-written handlers (`siteSpecs` / `xvNums`: Objects and DirectSpeakers positions with bounds,
+channelLock, objectDivergence, zoneExclusion, positionOffset, frequency, screen centre position and width, gain and
+position interaction ranges) satisfies `|k| < 2^36·10^5`. -/
 def NumsBounded (v2 : Bool) (d : Document) : Bool :=
-  (docElems v2 d).all fun e => ObjNumsBoundedX e.2.1 e.2.2
+  (docElems v2 d).all fun e => ObjNumsBoundedX e.2.1 e.2.2 && ObjSitesBounded e.2.1 e.2.2
 
-/-- **C08 on the model with real float text, document level (partial: generic handler-table path, gain handlers,
-jumpPosition).**  For a `DocValid`, `NumsBounded` document: in every element `e` of the document rendered by a parser
+/-- **C08 on the model with real float text, document level (partial: every number site is specified per handler).**  For a `DocValid`, `NumsBounded` document: in every element `e` of the document rendered by a parser
 of the regenerated table (`docElems`; the XML is `toXml (propsX v2 rows) name obj`, and the listed texts are attribute
 values / child texts of it: `floatTexts_in_toXml`),
 (1) every text written by a declarative `FloatType` row is `fmt5` of the double nearest to a grid number `k / 10^5`
@@ -1488,21 +1489,27 @@ values / child texts of it: `floatTexts_in_toXml`),
 (2) the same for every `gain` text written by the five hand-written gain handlers;
 (3) every jumpPosition `interpolationLength` text is `secondsDumps` of the stored Fraction (the real
     `SecondsType.dumps`), `parseFraction` reads it back exactly and writing again gives the same text;
-and the conclusion of `C08_roundtrip_model` holds.
-MISSING for the unsuffixed statement: the numbers written by the other hand-written handlers of
-`Model/XmlCustom.lean` (position / speaker position with bounds, channelLock maxDistance, objectDivergence,
-zoneExclusion, positionOffset, frequency, screen centre position / width, gain and position interaction ranges) are
-`Int` fields rendered with `dumpsNum` directly; they are not traversed (apply `floatCodec_refines` leaf by leaf), and a
-gain given in dB (`XV.gainDB`) is symbolic.  That a nested element's XML is a descendant of its main element's XML is
-by definition of `loudnessListImpl` / `blocksImpl` / `matrixImpl` / `avsListImpl` / `interactionImpl` / `screenImpl`
-and is not restated here. -/
+(4) every number text written by the other hand-written handlers (`siteSpecs`: the text of the `position` /
+    `positionOffset` / `objectDivergence` / `frequency` / interaction-range elements, the `maxDistance`, `azimuthRange`,
+    `positionRange`, zone and screen attributes) is the real float text of a grid number held by the stored value;
+and the conclusion of `C08_roundtrip_model` holds.  `custom_rows_classified` (kernel-decided on the regenerated table)
+says every hand-written handler pair of the tables is a gain handler, jumpPosition, a `siteSpecs` handler, the
+BS.2076-2-only refusal, or a pure delegation to a nested parser of the table — so no number-writing handler is left out.
+MISSING for the unsuffixed statement: (a) which texts of an element are number texts is specified per handler
+(`isFloatRow`, `gainTexts`, `jumpTexts`, `siteSpecs`), not derived from an XML schema; (b) that a nested element's XML
+is a descendant of its main element's XML is by definition of `loudnessListImpl` / `blocksImpl` / `matrixImpl` /
+`avsListImpl` / `interactionImpl` / `screenImpl` and is not restated; (c) a gain given in dB (`XV.gainDB`, dB bounds of
+a gain interaction range) is symbolic and not written; (d) values off the 1e-5 grid, `-0.0`, `|k| ≥ 2^36·10^5` are
+outside (`grid_model_excluded_points`). -/
 theorem C08_roundtrip_model_floats_partial (v2 : Bool) (d : Document) (hv : DocValid v2 d)
     (hb : NumsBounded v2 d = true) :
     (∀ e ∈ docElems v2 d,
       (∀ t ∈ floatTexts (implX v2) e.2.1 e.2.2, ∃ r ∈ e.2.1, ∃ k : ℤ, NumAt e.2.2 r.argName k ∧ RealFloatText k t) ∧
       (∀ t ∈ gainTexts v2 e.2.1 e.2.2, ∃ k : ℤ, NumAt e.2.2 "gain" k ∧ RealFloatText k t) ∧
       (∀ t ∈ jumpTexts v2 e.2.1 e.2.2, ∃ (j : Earverif.XmlCustom.JumpPosition) (k : ℤ),
-        e.2.2 "jumpPosition" = .one (.jump j) ∧ j.interpolationLength = some k ∧ RealSecondsText k t)) ∧
+        e.2.2 "jumpPosition" = .one (.jump j) ∧ j.interpolationLength = some k ∧ RealSecondsText k t) ∧
+      (∀ t ∈ siteTexts v2 e.2.1 e.2.2, ∃ (a : String) (v : XV) (k : ℤ),
+        e.2.2 a = .one v ∧ k ∈ xvNums v ∧ RealFloatText k t)) ∧
     ((∀ p ∈ d.programmes, RoundTrips (propsX v2 (rowsOf v2 "audioProgramme")) programmeDefaults "audioProgramme" p.toObj) ∧
     (∀ c ∈ d.contents, RoundTrips (propsX v2 (rowsOf v2 "audioContent")) contentDefaults "audioContent" c.toObj) ∧
     (∀ o ∈ d.objects, RoundTrips (propsX v2 (rowsOf v2 "audioObject")) objectDefaults "audioObject" o.toObj) ∧
@@ -1514,7 +1521,10 @@ theorem C08_roundtrip_model_floats_partial (v2 : Bool) (d : Document) (hv : DocV
     (∀ t ∈ d.trackFormats, RoundTrips (propsX v2 (rowsOf v2 "audioTrackFormat")) noneDefaults "audioTrackFormat" t.toObj) ∧
     (∀ u ∈ d.trackUIDs, RoundTrips (propsX v2 (rowsOf v2 "audioTrackUID")) noneDefaults "audioTrackUID" u.toObj)) := by
   refine ⟨fun e he => ?_, C08_roundtrip_model v2 d hv⟩
-  exact obj_numTexts_real v2 e.2.1 e.2.2 ((List.all_eq_true.mp hb) e he)
+  have h := (List.all_eq_true.mp hb) e he
+  simp only [Bool.and_eq_true] at h
+  obtain ⟨h1, h2, h3⟩ := obj_numTexts_real v2 e.2.1 e.2.2 h.1
+  exact ⟨h1, h2, h3, obj_siteTexts_real v2 e.2.1 e.2.2 h.2⟩
 
 /-- the generic path, any parser of the regenerated table and any object (class level; `impl` arbitrary) -/
 theorem C08_table_floatTexts_real :
@@ -1561,12 +1571,14 @@ example : DocValid true exFloatDoc ∧ NumsBounded true exFloatDoc = true ∧
 /-- … and with an Objects block (width 45.0, gain 0.25, jumpPosition with interpolationLength 0.2 s): the bounded
 predicate holds and the three kinds of texts are as expected -/
 example :
-    let b : ObjectsBlock := ⟨"AB_00031001_00000001", none, none, .polar 0 0 100000 ⟨none, none⟩, none, ⟨true, some 20000⟩, none,
+    let b : ObjectsBlock := ⟨"AB_00031001_00000001", none, none, .polar (-3000000) 0 100000 ⟨none, none⟩, none, ⟨true, some 20000⟩, none,
       4500000, 0, 0, 0, false, false, [], 25000, 10⟩
     ObjNumsBoundedX (rowsOf true "audioBlockFormat:Objects") b.toObj = true ∧
     floatTexts (implX true) (rowsOf true "audioBlockFormat:Objects") b.toObj = ["45.00000"] ∧
     gainTexts true (rowsOf true "audioBlockFormat:Objects") b.toObj = ["0.25000"] ∧
-    jumpTexts true (rowsOf true "audioBlockFormat:Objects") b.toObj = ["0.20000"] := by
+    jumpTexts true (rowsOf true "audioBlockFormat:Objects") b.toObj = ["0.20000"] ∧
+    ObjSitesBounded (rowsOf true "audioBlockFormat:Objects") b.toObj = true ∧
+    siteTexts true (rowsOf true "audioBlockFormat:Objects") b.toObj = ["-30.00000", "0.00000"] := by
   decide +kernel
 
 end FloatDoc
